@@ -53,13 +53,6 @@ UNITS.append(U(name='htp_tx_is_complete', props=P, kind='contract', src=['htp_tr
 tx('htp_tx_state_response_start', 'transaction attached as out_tx before RESPONSE_START, which is the only event, exactly once; progress NOT_STARTED/LINE -> LINE (BODY after HTTP/0.9) on OK, untouched on refusal',
    [HOOK, 'htp_log'], ['response_progress <= LINE on entry (RES_IDLE calls it for the transaction it has just picked)'])
 tx('htp_tx_state_response_line', 'RESPONSE_LINE is the only event, exactly once, its result is returned; progress untouched', [HOOK, 'htp_log'])
-tx('htp_tx_state_response_headers', 'raw header data flushed, then RESPONSE_HEADERS exactly once for this tx; refusal of either returned at once (no decompressor set-up after it); progress untouched',
-   [HOOK, SFCLR, 'htp_log', 'htp_table_get_c/contract_c05_table_get_c', 'bstr_cmp_c_nocasenorzero/contract_c05_any_cmp_c',
-    'bstr_util_mem_index_of_c_nocase/contract_c05_any_index_of', 'bstr_util_cmp_mem/contract_c05_any_cmp_mem',
-    'htp_gzip_decompressor_create/contract_c05_decompressor_create', 'htp_tx_res_destroy_decompressors', 'get_token/contract_c05_get_token'],
-   [A_FCLR, 'header lookup, string comparisons, tokenizer and decompressor creation replaced by frame-only stubs returning arbitrary values (C07 / C17 carry them)',
-    'the Content-Encoding tokenizer loop is NOT closed by a loop contract (its heap-growing decompressor chain has no SAT-expressible invariant): it is unwound completely (4 iterations, unwinding assertion) under the precondition 1 <= cfg->response_decompression_layer_limit <= 2 (library default 2; 0 = unlimited excluded)'],
-   unwindset='htp_tx_state_response_headers_wrapped_for_contract_checking.0:4', expect_loops_closed=False, objbits=12)
 tx('htp_tx_state_response_complete_ex', 'RESPONSE_COMPLETE (and the end marker) delivered iff progress was not COMPLETE on entry => at most once over any history; the two DATA_OTHER yields happen before finalisation and leave out_tx attached; OK => out_tx == NULL and RES_IDLE; TRANSACTION_COMPLETE only when both sides complete, after RESPONSE_COMPLETE, refusal returned; given INV_REQ the delivered transaction is attached to neither side (K)',
    [HOOK, SSINK, SFCLR, DESTROY], [A_SITE_OUT, A_SINK, A_FCLR, A_DESTROY,
                                    'KNOWN_F_C05_TXCOMPLETE_TWICE defined: INV_RES is claimed on return only for HTP_OK, not for HTP_DATA_OTHER (known finding F4, notes/c05.md); run with C05_STRICT=1 for the failing obligation'],
@@ -73,3 +66,15 @@ if os.environ.get('C05_STRICT'):
     u['defs'] = {'quick': {'C05_STRICT': 1}}
     u['sub'] = 'F4: INV_RES (response complete ==> detached from out_tx) after the DATA_OTHER yields - expected to FAIL'
     UNITS.append(u)
+
+# NOT DELIVERED: htp_tx_state_response_headers.  With every callee stubbed and the Content-Encoding tokenizer loop unwound
+# (layer limit 1..2) CBMC does not finish within 240 s (object_bits 12 needed, then SAT encoding blow-up in the
+# decompressor-chain loop).  The contract is in c05_life.h; enable with C05_EXPERIMENTAL=1 to retry.
+if os.environ.get('C05_EXPERIMENTAL'):
+    tx('htp_tx_state_response_headers', 'raw header data flushed, then RESPONSE_HEADERS exactly once for this tx; refusal of either returned at once (no decompressor set-up after it); progress untouched',
+       [HOOK, SFCLR, 'htp_log', 'htp_table_get_c/contract_c05_table_get_c', 'bstr_cmp_c_nocasenorzero/contract_c05_any_cmp_c',
+        'bstr_util_mem_index_of_c_nocase/contract_c05_any_index_of', 'bstr_util_cmp_mem/contract_c05_any_cmp_mem',
+        'htp_gzip_decompressor_create/contract_c05_decompressor_create', 'htp_tx_res_destroy_decompressors', 'get_token/contract_c05_get_token'],
+       [A_FCLR, 'header lookup, string comparisons, tokenizer and decompressor creation replaced by frame-only stubs returning arbitrary values (C07 / C17 carry them)',
+        'the Content-Encoding tokenizer loop is NOT closed by a loop contract (its heap-growing decompressor chain has no SAT-expressible invariant): it is unwound completely (4 iterations, unwinding assertion) under the precondition 1 <= cfg->response_decompression_layer_limit <= 2 (library default 2; 0 = unlimited excluded)'],
+       unwindset='htp_tx_state_response_headers_wrapped_for_contract_checking.0:4', expect_loops_closed=False, objbits=12)
